@@ -371,6 +371,12 @@ def make_backend(kind):
 
         m = MemoryFS()
         return Backend(kind, cache_directory(m), inner=[m])
+    if kind == "cachedir-os":
+        from fs.wrap import cache_directory
+
+        d = _tmpdir()
+        o = OSFS(d)
+        return Backend(kind, cache_directory(o), cleanup=lambda: rm_rf(d), inner=[o])
     if kind == "mount":
         from fs.mountfs import MountFS
 
